@@ -1,4 +1,5 @@
 import YardlModel.Evolution
+import YardlProofs.EvolutionRefl
 import YardlGenerated.Tables
 
 /-!
@@ -22,10 +23,15 @@ Proved here:
   conversions are generated).
 * `wrappers_preserve_errors` — a change inside a stream, vector or optional is an error exactly when
   the inner change is; an unchanged inner type stays unchanged.
-* `compare_reflexive_partial` — a type compared with itself is unchanged, for every type built from
-  primitives, optionals, vectors, arrays and maps, at any depth. **Partial**: the full statement
-  (`CompareReflexive` below, also over records, enums and unions) is not proved; it is evaluated by
-  the driver on every generated version (identity pairs) and by the tool on identical versions.
+* `compare_reflexive` — a type compared with itself is unchanged, for **every** well-formed type
+  (`wfT`: distinct field names per record, distinct symbols per enum, non-empty unions — what the
+  validator enforces), at any nesting depth: records field by field, enums symbol by symbol, unions
+  through the greedy first-fit matching of detectUnionChanges (which pairs every case with itself).
+  `well_formedness_is_needed`: without distinct field names the statement is false of the model.
+* `identical_versions_are_silent` — a protocol with distinct step names and well-formed step types,
+  compared with itself, gets the verdict `ok` (no warning, no error), whatever definitions the new
+  version has.
+The driver reports for every generated version pair whether it satisfies these hypotheses.
 -/
 
 namespace Yardl.C06
@@ -55,44 +61,24 @@ theorem primitive_change_error_symmetric (a b : Prim) : primChange a b = .error 
 theorem wrappers_preserve_errors (c : Cls) : (c.wrap = .error ↔ c = .error) ∧ (c.wrap = .same ↔ c = .same) ∧ (c.wrap.sev = .err ↔ c.sev = .err) := by
   cases c <;> decide
 
-/-- types built from primitives and the containers -/
-def plain : ETy → Bool
-  | .prim _ => true
-  | .optional t => plain t
-  | .vector t _ => plain t
-  | .array t _ => plain t
-  | .map k v => plain k && plain v
-  | _ => false
+theorem compare_reflexive (t : ETy) (fuel : Nat) (hw : wfT t = true) (h : depth t ≤ fuel) : cmp fuel t t = .same :=
+  cmp_self fuel t hw h
 
-/-- the full statement (not proved): every well-formed type compares as unchanged with itself -/
-def CompareReflexive : Prop := ∀ (t : ETy) (fuel : Nat), depth t ≤ fuel → cmp fuel t t = .same
+/-- the hypothesis is met by a type that uses every constructor, nested -/
+example : wfT (.record 1 (.cons 10 (.union (.null (.cons (.prim .int32) (.cons (.enum 2 false .int32 [(5, 0), (6, 1)]) .nil))))
+    (.cons 11 (.map (.prim .string) (.vector (.optional (.array (.prim .float32) .dynamic)) none)) .nil))) = true := by decide
 
-theorem arrKindSame_refl (k : ArrKind) : arrKindSame k k = true := by
-  cases k <;> simp [arrKindSame]
+/-- and it is needed: a record that declares the field `10` twice does not compare as unchanged with itself -/
+theorem well_formedness_is_needed :
+    cmp 5 (.record 1 (.cons 10 (.prim .int32) (.cons 10 (.prim .string) .nil)))
+          (.record 1 (.cons 10 (.prim .int32) (.cons 10 (.prim .string) .nil))) = .defChanged := by decide
 
-theorem compare_reflexive_partial : ∀ (fuel : Nat) (t : ETy), plain t = true → depth t ≤ fuel → cmp fuel t t = .same
-  | 0, t, _, h => by cases t <;> simp [depth] at h
-  | fuel + 1, .prim p, _, _ => by simp [cmp, primChange]
-  | fuel + 1, .optional t, hp, h => by
-    have := compare_reflexive_partial fuel t (by simpa [plain] using hp) (by simp [depth] at h; omega)
-    simp [cmp, this, Cls.wrap]
-  | fuel + 1, .vector t l, hp, h => by
-    have := compare_reflexive_partial fuel t (by simpa [plain] using hp) (by simp [depth] at h; omega)
-    simp [cmp, this, Cls.wrap]
-  | fuel + 1, .array t k, hp, h => by
-    have := compare_reflexive_partial fuel t (by simpa [plain] using hp) (by simp [depth] at h; omega)
-    simp [cmp, this, arrKindSame_refl]
-  | fuel + 1, .map k v, hp, h => by
-    simp [plain] at hp
-    simp [depth] at h
-    have hl := Nat.le_max_left (depth k) (depth v)
-    have hr := Nat.le_max_right (depth k) (depth v)
-    have h1 := compare_reflexive_partial fuel k hp.1 (by omega)
-    have h2 := compare_reflexive_partial fuel v hp.2 (by omega)
-    simp [cmp, h1, h2]
-  | fuel + 1, .enum _ _ _ _, hp, _ => by simp [plain] at hp
-  | fuel + 1, .record _ _, hp, _ => by simp [plain] at hp
-  | fuel + 1, .union _, hp, _ => by simp [plain] at hp
+theorem identical_versions_are_silent (env : Env) (steps : List EStep) (hw : wfSteps steps = true) :
+    protoVerdict env steps steps = .ok := by
+  simp only [wfSteps, Bool.and_eq_true, List.all_eq_true] at hw
+  exact protoVerdict_self env steps hw.1 hw.2
+
+example : wfSteps [⟨1, .prim .int32, false⟩, ⟨2, .record 1 (.cons 10 (.optional (.prim .string)) .nil), true⟩] = true := by decide
 
 /-- non-vacuity / classes on concrete shapes: a record with an added optional field is a silent
     definition change; an added required field warns; a removed step is an error -/
